@@ -232,6 +232,34 @@ func recvBusyAware[T any](ch <-chan T, budget time.Duration) (v T, ok bool) {
 	}
 }
 
+// busyDL is a wall-clock deadline that is renewed (up to four times) while the machine is busy
+type busyDL struct {
+	end time.Time
+	d   time.Duration
+	ext int
+}
+
+func newBusyDL(d time.Duration) *busyDL { return &busyDL{end: time.Now().Add(d), d: d} }
+func (b *busyDL) expired() bool {
+	if time.Now().Before(b.end) {
+		return false
+	}
+	if b.ext < 4 && machineBusy() {
+		b.ext++
+		b.end = time.Now().Add(b.d)
+		return false
+	}
+	return true
+}
+
+// busyScale: a time limit, five times as long while the machine is busy
+func busyScale(d time.Duration) time.Duration {
+	if machineBusy() {
+		return 5 * d
+	}
+	return d
+}
+
 // machineBusy: 1-minute load average above 60% of the CPUs (Linux /proc/loadavg; false elsewhere)
 func machineBusy() bool {
 	b, err := os.ReadFile("/proc/loadavg")
